@@ -75,7 +75,7 @@ Theorem call_noflags_identity : forall F c fs, f_fix F = false -> f_update F = f
   map (fun i => match i with CPos r => (None, verbatim r) | CKw k r => (Some k, verbatim r) end) (call_result F c fs)
   = map (fun e => match e with inl t => (None, Some t) | inr (k, t) => (Some k, Some t) end) (elements c).
 Proof.
-  intros F c fs HF HU. unfold call_result. generalize (cinserts (c_kws c) fs [] 0) as ins. generalize 0%nat as i.
+  intros F c fs HF HU. unfold call_result. generalize (cinserts (length (c_pos c)) (c_kws c) fs [] (length (c_pos c))) as ins. generalize 0%nat as i.
   induction (elements c) as [|e r IH]; intros i ins; cbn [cplace map]; rewrite HF; [reflexivity|].
   cbn [app]. rewrite map_app. rewrite IH.
   match goal with |- ?a ++ ?b = ?x :: ?b => assert (E : a = [x]); [|rewrite E; reflexivity] end.
@@ -94,7 +94,7 @@ Theorem call_nofix_values : forall F c fs i, f_fix F = false -> In i (call_resul
   | CKw k r => exists t, In (k, t) (c_kws c) /\ eval_r r = eval t
   end.
 Proof.
-  intros F c fs i HF. unfold call_result. generalize (cinserts (c_kws c) fs [] 0) as ins. generalize 0%nat as j.
+  intros F c fs i HF. unfold call_result. generalize (cinserts (length (c_pos c)) (c_kws c) fs [] (length (c_pos c))) as ins. generalize 0%nat as j.
   assert (G : forall e, In e (elements c) -> In i (assign_el F fs e) ->
     match i with
     | CPos r => exists t, In t (c_pos c) /\ eval_r r = eval t
@@ -117,21 +117,21 @@ Proof.
 Qed.
 
 (* ------------------------------------------------------------------------- with fix: the result is the new object *)
-Lemma cinserts_concat : forall kws fs pending pos,
-  flat_map snd (cinserts kws fs pending pos) = rev pending ++ new_fields kws fs.
+Lemma cinserts_concat : forall p kws fs pending pos,
+  flat_map snd (cinserts p kws fs pending pos) = rev pending ++ new_fields kws fs.
 Proof.
-  intros kws fs. unfold new_fields. induction fs as [|f r IH]; intros pending pos; cbn [cinserts filter map].
-  - unfold flush. destruct pending as [|p ps]; cbn [flat_map snd]; rewrite ?app_nil_r; reflexivity.
+  intros p kws fs. unfold new_fields. induction fs as [|f r IH]; intros pending pos; cbn [cinserts filter map].
+  - unfold flush. destruct pending as [|q qs]; cbn [flat_map snd]; rewrite ?app_nil_r; reflexivity.
   - unfold is_new_field at 1. destruct (fd_default f); cbn [negb andb]; [apply IH|].
     destruct (kw_index (fd_name f) kws) as [i|] eqn:E.
-    + rewrite flat_map_app, IH. cbn [rev app]. unfold flush. destruct pending as [|p ps]; cbn [flat_map snd app]; rewrite ?app_nil_r; reflexivity.
+    + rewrite flat_map_app, IH. cbn [rev app]. unfold flush. destruct pending as [|q qs]; cbn [flat_map snd app]; rewrite ?app_nil_r; reflexivity.
     + cbn [map]. rewrite IH. cbn [rev]. rewrite <- app_assoc. reflexivity.
 Qed.
 
-Lemma cinserts_pos_bound : forall kws fs pending pos n, pos <= n -> length kws <= n ->
-  Forall (fun g : nat * list (Z * val) => fst g <= n) (cinserts kws fs pending pos).
+Lemma cinserts_pos_bound : forall p kws fs pending pos n, pos <= n -> p + length kws <= n ->
+  Forall (fun g : nat * list (Z * val) => fst g <= n) (cinserts p kws fs pending pos).
 Proof.
-  intros kws fs. induction fs as [|f r IH]; intros pending pos n Hp Hl; cbn [cinserts].
+  intros p kws fs. induction fs as [|f r IH]; intros pending pos n Hp Hl; cbn [cinserts].
   - unfold flush. destruct pending; constructor; [exact Hp|constructor].
   - destruct (fd_default f); [apply IH; assumption|].
     destruct (kw_index (fd_name f) kws) as [i|] eqn:E; [|apply IH; assumption].
@@ -178,7 +178,7 @@ Proof.
   intros F c fs HF. unfold call_result. rewrite (cplace_perm F _ fs (elements c) 0 HF). apply Permutation_app_head.
   rewrite cinserted_at_perm.
   - rewrite cinserts_concat. reflexivity.
-  - apply cinserts_pos_bound; [lia|]. unfold elements. rewrite app_length, !map_length. lia.
+  - unfold elements. rewrite app_length, !map_length. apply cinserts_pos_bound; lia.
 Qed.
 
 Definition managed_call (c : call) : Prop :=
@@ -296,7 +296,7 @@ Qed.
 (* whatever is approved and observed: no code is generated for a user-controlled part, none is duplicated or reordered *)
 Theorem call_unmanaged_subsequence : forall F c fs, subseq (result_unms (call_result F c fs)) (call_unms c).
 Proof.
-  intros F c fs. unfold call_result, call_unms. generalize (cinserts (c_kws c) fs [] 0) as ins. generalize 0%nat as i.
+  intros F c fs. unfold call_result, call_unms. generalize (cinserts (length (c_pos c)) (c_kws c) fs [] (length (c_pos c))) as ins. generalize 0%nat as i.
   induction (elements c) as [|e r IH]; intros i ins; cbn [cplace flat_map].
   - destruct (f_fix F); [rewrite cinserted_unms|]; apply ss_nil.
   - unfold result_unms. rewrite !flat_map_app. fold (result_unms (assign_el F fs e)). fold (result_unms (cplace F ins fs (S i) r)).
